@@ -15,6 +15,8 @@ static std::string idkey(const JV &id);
 void World::violation(const std::string &prop_in, const std::string &rule_in, const std::string &detail) {
 	if (res.violated || done) return;
 	std::string prop = prop_in, rule = rule_in;
+	// an open known finding whose witness still fails (bin/check passes its rule here): counted, not reported again by every run that meets it
+	{ const JV *qr = plan.hdr.get("quiet_rules"); if (qr && qr->t == JV::Arr) for (auto &x : qr->a) if (x.t == JV::Str && x.s == prop + "/" + rule) { probe("known_finding_met:" + x.s); return; } }
 	// containment profile: what the reference model expects for healthy peers *is* the property; keep the originating rule visible
 	std::string rl = plan.hdr.gets("relabel");
 	if (rl.empty() && faults_fired > 0) rl = plan.hdr.gets("relabel_after_fault");
